@@ -175,6 +175,9 @@ def run(ctx):
             for i in range(ctx.pick(120, 2500)):
                 depth = rng.randint(0, 4)
                 dicts = [gen_dict(rng) for _ in range(depth)]
+                for j in range(2, depth):
+                    if rng.random() < 0.3:
+                        dicts[j] = dict(rng.choice(dicts[:j - 1]))
                 config = jsonrpclib.config.Config(user_agent=rng.choice([None, "vf-agent/1.0"]),
                                                   content_type=rng.choice(["application/json-rpc", "application/json"]))
                 history = History()
@@ -221,6 +224,10 @@ def run(ctx):
                         ctor = gen_dict(rng)
                         proxy = jsonrpclib.ServerProxy(peer.url, headers=ctor, history=history, config=config)
                         dicts = [gen_dict(rng) for _ in range(k)]
+                        # equal dictionaries pushed again at non-adjacent positions (A-B-A stacks)
+                        for j in range(k):
+                            if rng.random() < 0.35:
+                                dicts[j] = dict(rng.choice([ctor] + dicts[:j]))
                         case = {"family": fam, "ctor": ctor, "blocks": dicts, "exits": list(pattern),
                                 "scenario": "blocks"}
                         ctx.case(("blocks", fam, gen.trepr([ctor] + dicts), pattern))
